@@ -29,7 +29,9 @@ Fixpoint used_types (ft : ftype) : list bytes :=
   | FMap k v => k :: used_types v
   | FSimple s => [s]
   end.
-Definition struct_used (st : struct_) : list bytes := flat_map (fun fd => used_types (f_type fd)) (s_fields st).
+(* a set, as Go's map[string]bool *)
+Definition dedup (l : list bytes) : list bytes := fold_right (fun x acc => if bmem x acc then acc else x :: acc) [] l.
+Definition struct_used (st : struct_) : list bytes := dedup (flat_map (fun fd => used_types (f_type fd)) (s_fields st)).
 
 (* names are checked in the order enums, structs, messages, unions against one growing table *)
 Fixpoint names_ok (seen : list bytes) (l : list bytes) : option (list bytes) :=
@@ -66,7 +68,7 @@ Fixpoint lookup (n : bytes) (u : usage) : option (list bytes) :=
 Fixpoint add_all (l add : list bytes) : list bytes * bool :=
   match add with
   | [] => (l, false)
-  | k :: r => if bmem k l then add_all l r else let '(l', _) := add_all (k :: l) r in (l', true)
+  | k :: r => if bmem k l then add_all l r else let '(l', _) := add_all (l ++ [k]) r in (l', true)
   end.
 Definition step_one (u : usage) (a : bytes) (ua : list bytes) : list bytes * bool :=
   fold_left (fun (acc : list bytes * bool) (kv : bytes * list bytes) =>
@@ -92,7 +94,13 @@ Fixpoint iterate_u (fuel : nat) (u : usage) : usage :=
   | S f => let '(u', d) := pass_u u in if d then iterate_u f u' else u'
   end.
 
-Definition validate (f : file) : bool :=
+(* the recursion check: a struct whose transitive usage contains its own name; nall bounds the number of names in play *)
+Definition rec_check (nall : nat) (sts : list struct_) : bool :=
+  let u0 : usage := map (fun s => (s_name s, struct_used s)) sts in
+  let u := iterate_u (S (length u0 * (nall + length u0 + 2))) u0 in
+  forallb (fun kv => negb (bmem (fst kv) (snd kv))) u.
+
+Definition validate_gen (rc : nat -> list struct_ -> bool) (f : file) : bool :=
   negb (has_dup (map c_name (consts f))) &&
   match names_ok [] (map e_name (enums f) ++ map s_name (structs f) ++ map m_name (messages f) ++ map un_name (unions f)) with
   | None => false
@@ -110,10 +118,11 @@ Definition validate (f : file) : bool :=
       let all := custom ++ prims in
       forallb (fun s => forallb (fun fd => type_defined all (f_type fd)) (s_fields s)) (structs f) &&
       forallb (fun m => forallb (fun p => type_defined all (f_type (snd p))) (m_fields m)) (messages f) &&
-      let u0 : usage := map (fun s => (s_name s, struct_used s)) (structs f) in
-      let u := iterate_u (S (length u0 * (length all + length u0 + 2))) u0 in
-      forallb (fun kv => negb (bmem (fst kv) (snd kv))) u
+      rc (length all) (structs f)
   end.
+Definition validate : file -> bool := validate_gen rec_check.
+(* everything but the recursion clause *)
+Definition validate_norec : file -> bool := validate_gen (fun _ _ => true).
 
 Definition read_and_validate (input : bytes) : option bool :=
   match read_file input false with
